@@ -184,6 +184,36 @@ def obligations(tier):
                     ("iterate >= eps after a step", d_and(*[d_le(eps, out[k, j]) for k in range(r) for j in range(c)]))]
         add("fista", f"rank={r},columns={c}", dict(A=(r, r), B=(r, c), x=(r, c)), run_fista, claims_f, dict(rank=r, columns=c), "fixed point ⇒ KKT",
             params=dict(eps=None, lr=None, ls=None, rr=None), pre=pre_f, solver_timeout_ms=60000, check_domain=True)
+    # ---- FISTA default step size: 1 / L with L = sigma_max(UtU) + 2 ridge the Lipschitz constant of the gradient the loop uses (UtU x - UtM + l1 + 2 ridge x);
+    #      a larger step makes the accelerated projected-gradient iteration oscillate for strong ridge (E1-generic, all sizes; sigma_max by the SVD contract)
+    def lr_setup(S):
+        n, Rr = atom("n"), atom("R")
+        return dict(_S=S, UtM=S.input("UtM", [Rr, n]), UtU=S.input("UtU", [Rr, Rr]), rr=S.input("rr", [], nonneg=True), ls=S.input("ls", [], nonneg=True))
+    def lr_call(I):
+        import tensorly as tl
+        S = I["_S"]
+        rec = {}
+        def tsvd(M, *a, **k):
+            rec["arg"] = M
+            if S.name != "sym":
+                from tensorly.tenalg.svd import truncated_svd as real
+                out = real(M, *a, **k)
+                rec["sigma"] = out[1][0]
+                S.record("SIGMA", out[1][0])
+                return out
+            from ..iterative import real_dtype
+            rec["sigma"] = G.opaque_tensor("SIGMA", [], real_dtype(M), nonneg=True)   # dtype contract of singular values: real, precision of the argument
+            return None, [rec["sigma"]], None
+        from ..iterative import stubbed as _st
+        with _st(tl, truncated_svd=tsvd):
+            cut = LoopCut(nn.fista)
+            st = cut.prefix(I["UtM"], I["UtU"], n_iter_max=1, sparsity_coef=I["ls"], ridge_coef=I["rr"])
+        return dict(lr=st["lr"], sigma=rec.get("sigma"), arg=rec.get("arg"))
+    def lr_post(S, I, r):
+        return [("the largest singular value is taken of UtU", r["arg"], I["UtU"]),
+                ("default step size: lr ≡ 1 / (sigma_max + 2 ridge)", r["lr"], 1 / (r["sigma"] + 2 * I["rr"]))]
+    obs.append(GOb(PID, f"{PID}/solvers.nnls:fista/default step size ≡ 1 / Lipschitz constant of the gradient[lr=None]", "tensorly.solvers.nnls:fista", lr_setup, lr_call, lr_post, tenalg="core",
+                   instance=dict(lr=None), clause="default step size is 1 / (sigma_max(UtU) + 2 ridge)", forall=["sizes", "data", "penalties"], enumerated=[], side_nonzero=True))
     # ---- ADMM without constraints: the least-squares solution (E1-generic, all sizes)
     def setup(S):
         n, R = atom("n"), atom("R")
@@ -246,6 +276,13 @@ def obligations(tier):
                             n_eval += 1
                             if xa.min() < -1e-12 or f > fr * (1 + 1e-6) + 1e-9:
                                 fails.append(f"active_set_nnls {kind} {n_unk} unknowns rhs {j} {sname}: objective {f:.6e} vs reference {fr:.6e}")
+        # one unknown, negative right-hand side, warm start: the optimum is 0 (these starts leave a rounding residue in the boundary step)
+        for (a, b, x0) in ((1.5274520456522023, -1.0192353864204196, 0.9427268757652605), (0.13158337098383913, -0.2990114125889121, 0.8743391365446918),
+                           (0.22370087487875204, -0.036171402007042386, 0.2440761643501634)):
+            xa = nn.active_set_nnls(np.array([b]), np.array([[a]]), x=np.array([x0]), n_iter_max=500)
+            n_eval += 1
+            if xa.min() < 0 or abs(xa[0]) > 1e-12:
+                fails.append(f"active_set_nnls 1 unknown, UtU=[[{a:.6g}]], UtM=[{b:.6g}], warm start [{x0:.6g}]: returns {xa.tolist()} (optimum 0, and a solution must be non-negative)")
         return n_eval, fails
     def bounded_witnesses():
         """explicit well-conditioned 2-unknown problems on which the warm-started active set stops at a non-optimal point (reference: enumeration of the 4 supports)"""
